@@ -57,11 +57,16 @@ def misc_cases():
     return st.fixed_dictionaries({
         "form": st.sampled_from(["exit-then-else", "exit-in-else",
                                  "helper-expr", "exit-no-else",
-                                 "helper-in-lookup", "helper-in-lookup"]),
+                                 "helper-in-lookup", "helper-in-lookup",
+                                 "regs-across-update", "regs-across-update"]),
         "fmt": st.sampled_from("BHIQbhiq"),
         "c": st.integers(0, 100),
         "code": st.sampled_from([1, 2, 3]),
         "helper": st.sampled_from(["ktime", "prandom"]),
+        # registers holding values across a map update (hash-map variable
+        # assignment or Dict.update()), read again afterwards
+        "live": st.lists(st.sampled_from([0, 2, 3, 4, 5, 8]), min_size=1,
+                         max_size=3, unique=True),
     }).map(lambda c: {"gen": "misc", "case": c})
 
 
@@ -90,6 +95,21 @@ def run_misc(case):
                 e.vb = 1
                 e.exit(XDPExitCode(case["code"]))
             e.vb = 3
+        elif f == "regs-across-update":
+            live = case.get("live") or [5]
+            for k, no in enumerate(live):
+                e.r[no] = e.va + k
+            if case["code"] == 1:
+                e.hv = e.r[live[0]] + 1
+            elif case["code"] == 2:
+                e.hv = e.va
+            else:
+                e.table.key.k = e.va
+                e.table.value.v = case["c"]
+                e.table.value.w = 0
+                e.table.update()
+            for no in live:
+                e.vb = e.vb + e.r[no]
         elif f == "helper-in-lookup":
             # a helper call while the looked-up value pointer is live
             e.table.key.k = e.va
@@ -118,8 +138,12 @@ def run_misc(case):
     ns = {"license": "GPL", "minimumPacketSize": 20,
           "amap": amap, "va": amap.globalVar(case["fmt"]),
           "vb": amap.globalVar("Q"), "program": program}
-    if case["form"] == "helper-in-lookup":
+    if case["form"] in ("helper-in-lookup", "regs-across-update"):
         ns["table"] = Dict(Key, Value, size=4)
+    if case["form"] == "regs-across-update":
+        from ebpfcat.hashmap import HashMap
+        ns["hmap"] = HashMap()
+        ns["hv"] = ns["hmap"].globalVar("Q")
     cls = type("M", (XDP,), ns)
     with kernel.tracking():
         try:
@@ -128,7 +152,11 @@ def run_misc(case):
             raise
         except Exception:
             return {"key": None}    # the DSL refused to build it
-    return {"key": repr((case["form"], case["fmt"], case["helper"]))}
+    return {"key": repr((case["form"], case["fmt"], case["helper"],
+                         case["code"] if case["form"] == "regs-across-update"
+                         else None,
+                         tuple(case.get("live") or ())
+                         if case["form"] == "regs-across-update" else None))}
 
 
 def library_cases():
